@@ -178,10 +178,13 @@ class BlockBase:
         elif missing == "inner":
             # blocks present in only one of either array are simply dropped
 
-            for sector, x_block in xy_blocks.items():
+            for sector, x_block in tuple(xy_blocks.items()):
                 if sector in other_blocks:
                     other_block = other_blocks.pop(sector)
                     xy_blocks[sector] = fn(x_block, other_block)
+                else:
+                    # only left present -> drop
+                    del xy_blocks[sector]
 
         return xy
 
